@@ -330,3 +330,19 @@ Proof.
   - exact (rotate_elementwise l a b c Hab Hbc Hcl).
 Qed.
 Print Assumptions C11_rotate_rotates.
+
+(* std::swap_ranges(begin() + a, begin() + b, begin() + c) inside one vector, ranges not overlapping:
+   the two segments change places, everything else stays *)
+Theorem C11_swap_ranges_swaps : forall L, wf_plist L = true -> has_varying L = false ->
+  forall v l offs a b c, RepO L v l offs -> (a <= b)%nat -> (b <= length l)%nat ->
+  (c + (b - a) <= length l)%nat -> (b <= c \/ c + (b - a) <= a)%nat ->
+  exists l', RepO L (fst (swaps L true v v (range_pairs (Z.of_nat a) (Z.of_nat b) (Z.of_nat c)))) l' offs /\
+    forall k, nth k l' [] =
+      if ((a <=? k) && (k <? b))%nat then nth (k - a + c) l []
+      else if ((c <=? k) && (k <? c + (b - a)))%nat then nth (k - c + a) l [] else nth k l [].
+Proof.
+  intros L Hwf Hv v l offs a b c R Hab Hbl Hcl Hd. exists (fold_left lswap (range_pairs_nat a b c) l). split.
+  - exact (swap_ranges_refines L Hwf Hv v l offs a b c R Hab Hbl Hcl Hd).
+  - exact (swap_ranges_elementwise l a b c Hab Hbl Hcl Hd).
+Qed.
+Print Assumptions C11_swap_ranges_swaps.
